@@ -126,6 +126,11 @@ def run(ctx):
     from . import c01_effects
     c01_effects.is_ephemeral_exact(ctx, "C08.1")
     c08_flags(ctx)
+    # mempool admission verifies the aggregate signature on every accepting path, as the block path does (shared with C05.5);
+    # the fingerprint computed only on the mempool path must accept exactly the argument shapes parse_args accepts (shared with C19.4)
+    from . import c05, c19
+    c05.c05_5(ctx, R="C08.1")
+    c19.c19_4(ctx, R="C08.1")
 
 
 def c08_dialect(ctx):
